@@ -269,7 +269,8 @@ def directed_search(chk):
                     continue        # the namespace lookup only depends on bits 5 and 6
                 terms.append(t)
                 meta.append((side, kind, sc))
-    codes, errors = coqio.eval_cases('c13gs', IMPORTS_GEN, '', 'gscase', terms, 'eval_gs', shard=700)
+    codes, errors = coqio.eval_cases('c13gs', IMPORTS_GEN, '', 'gscase', terms, 'eval_gs',
+                                     shard=shard_for(len(terms)))
     for e in errors:
         chk.broken_obligation('Gen-vs-Spec search could not be evaluated: ' + e)
     bad = {}
@@ -287,27 +288,39 @@ def directed_search(chk):
 CLASSIFY_DEFS = '''
 Definition obs_kind (c : rcase) : nat :=
   match rc_obs c with
-  | Err _ => 3 | Ok [] => 0 | Ok (FunRan _ _ :: _) => 1 | Ok _ => 2 end%nat.
-Definition classify (c : rcase) : nat :=
-  (1 + (if case_skips c then 1 else 0) * 2
-     + match case_level c with Some k => k | None => 0 end * 4
-     + obs_kind c * 32)%nat.
+  | Err _ => 3 | Ok [] => 0 | Ok (FunRan _ _ :: _) => 1 | Ok _ => 2 end%%nat.
+Definition same_target (c : rcase) : bool :=
+  match rc_obs c, spec_calls c with
+  | Ok (FunRan h _ :: _), FunRan h' _ :: _ => N.eqb h h'
+  | Ok (NsTriggered k _ _ :: _), NsTriggered k' _ _ :: _ => N.eqb k k'
+  | _, _ => false
+  end.
+(* failing cases carry their classification: bits 0-1 = verdict of %(fn)s, bit 2 = skips,
+   bits 3-5 = level the rules select, bits 6-7 = what was observed, bit 8 = the prescribed
+   target did run (so arguments / method dispatch are what is wrong) *)
+Definition eval_classified (c : rcase) : nat :=
+  match %(fn)s c with
+  | O => O
+  | k => (k + (if case_skips c then 1 else 0) * 4
+            + match case_level c with Some l => l | None => 0 end * 8
+            + obs_kind c * 64 + (if same_target c then 256 else 0))%%nat
+  end.
 '''
+OBSERVED = ['nothing ran', 'a function handler ran', 'a class-based namespace ran', 'an exception escaped']
 
 
-def classify(chk, terms):
-    """index -> (skips, level, observed kind) for the given case terms."""
-    if not terms:
-        return {}
-    codes, errors = coqio.eval_cases('c13cls', IMPORTS_SPEC, CLASSIFY_DEFS, 'rcase', terms, 'classify')
+def shard_for(n):
+    """one round of coqc processes on the available cores"""
+    return max(100, -(-n // common.NCPU))
+
+
+def eval_rcases(chk, name, terms, imports, evalfn, what):
+    """index -> (code, (skips, level, observed)) for the failing cases."""
+    codes, errors = coqio.eval_cases(name, imports, CLASSIFY_DEFS % {'fn': evalfn}, 'rcase', terms,
+                                     'eval_classified', shard=shard_for(len(terms)))
     for e in errors:
-        chk.broken_obligation('classification failed: ' + e)
-    out = {}
-    for i, c in codes.items():
-        c -= 1
-        out[i] = (bool(c & 2), (c // 4) % 8, ['nothing ran', 'a function handler ran', 'a class-based namespace ran',
-                                              'an exception escaped'][c // 32])
-    return out
+        chk.broken_obligation('%s failed: %s' % (what, e))
+    return {i: (c & 3, (bool(c & 4), (c // 8) % 8, OBSERVED[(c // 64) % 4], bool(c & 256))) for i, c in codes.items()}
 
 
 LEVELS = ['no target', 'handlers[ns][ev]', "handlers[ns]['*']", "handlers['*'][ev]", "handlers['*']['*']",
@@ -315,26 +328,25 @@ LEVELS = ['no target', 'handlers[ns][ev]', "handlers[ns]['*']", "handlers['*'][e
 
 
 def signature(sc, code, cls):
-    skips, level, observed = cls
-    if sc['side'] == 'C' and skips and not (code & 1):
+    skips, level, observed, same = cls
+    if sc['side'] == 'C' and skips and not same and not (code & 1):
         return SIG_ELIF
-    return '%s-level%d-%s' % ('client' if sc['side'] == 'C' else 'server', level,
-                              observed.replace(' ', '-')) + ('-model-differs' if code & 1 else '')
+    what = 'right-target-wrong-arguments-or-method' if same else 'instead-' + observed.replace(' ', '-')
+    return '%s-level%d-%s' % ('client' if sc['side'] == 'C' else 'server', level, what) + \
+        ('-model-differs' if code & 1 else '')
 
 
 def report(chk, scs, results, codes, full_eval):
     """Turn nonzero codes into violations / broken obligations."""
-    bad = sorted(codes)
-    cls = classify(chk, [results[i][0] for i in bad])
     n_viol = 0
-    for j, i in enumerate(bad):
-        code, sc = codes[i], scs[i]
-        c = cls.get(j, (False, 0, '?'))
+    for i in sorted(codes):
+        (code, c), sc = codes[i], scs[i]
         if code & 2:
             n_viol += 1
             sig = signature(sc, code, c)
             what = ('%s: event %r on namespace %r must go to %s, but %s (registered: functions %s, class-based %s)'
-                    % (sc['variant'], sc['ev'], sc['ns'], LEVELS[c[1]], c[2], sc['funs'], sc['classes']))
+                    % (sc['variant'], sc['ev'], sc['ns'], LEVELS[c[1]],
+                       'it ran with other arguments / another method' if c[3] else c[2], sc['funs'], sc['classes']))
             chk.violation(sig, what, {'scenario': sc, 'observed': results[i][2], 'expected_level': LEVELS[c[1]]})
         elif code & 1:
             chk.broken_obligation('correspondence: generated lookups under the hand model of _trigger_event '
@@ -506,6 +518,40 @@ def promote():
     return 0
 
 
+def gen_is_current():
+    """The Gen_*.v files (and their .vo) in the build are the translation of the tree under
+    test: guards against a stale build and against a concurrent run of another check
+    regenerating them from a different VERIF_REPO."""
+    from translator import py2coq
+    for src, out, cls, attrs, methods in py2coq.TARGETS:
+        opath = os.path.join(common.COQ, out)
+        try:
+            text = py2coq.translate_class(open(os.path.join(common.REPO, src)).read(), cls, attrs, methods, origin=src)
+        except Exception:
+            if os.path.exists(opath):
+                return False
+            continue
+        vo = opath[:-2] + '.vo'
+        if not os.path.exists(opath) or open(opath).read() != text:
+            return False
+        if not os.path.exists(vo) or os.path.getmtime(vo) < os.path.getmtime(opath):
+            return False
+    return True
+
+
+def prove_current(chk, targets):
+    """chk.prove(), repeated when the generated files were changed under it."""
+    saved = list(chk.broken)
+    for attempt in range(3):
+        chk.broken[:] = saved
+        proved = chk.prove(targets=targets)
+        if gen_is_current():
+            return proved
+    chk.broken_obligation('the generated Routing/Gen_*.v files do not match the translation of %s after three '
+                          'builds (another check running concurrently with a different VERIF_REPO?)' % common.REPO)
+    return False
+
+
 # --------------------------------------------------------------------------------------
 def enumerate_scenarios(chk):
     """All abstract configurations x the six class/handler-kind variants."""
@@ -555,7 +601,7 @@ def run(chk):
         'registries, all event / namespace strings, all argument lists)',
         'the TypeError retry for legacy one-argument disconnect handlers and the value returned by _trigger_event '
         'are outside the model']
-    proved = chk.prove(targets=['Check/C13GenCheck.v', 'Check/C13Check.v'])
+    proved = prove_current(chk, ['Check/C13GenCheck.v', 'Check/C13Check.v'])
     gen_ok = all(os.path.exists(os.path.join(common.COQ, 'Check', f)) for f in ('C13GenCheck.vo',)) and \
         all(os.path.exists(os.path.join(common.COQ, 'Routing', f)) for f in ('Gen_base_server.vo', 'Gen_base_client.vo'))
     imports, evalfn = (IMPORTS_GEN, 'eval_full') if gen_ok else (IMPORTS_SPEC, 'eval_spec')
@@ -574,7 +620,7 @@ def run(chk):
         bad, searched = directed_search(chk)
         witnesses = []
         for (side, kind), lst in sorted(bad.items()):
-            lst = sorted(lst, key=lambda s: (len(s['funs']) + len(s['classes']), s['mask'], s['ev']))
+            lst = sorted(lst, key=lambda s: (len(s['funs']) + len(s['classes']), s['ev'] != 'ev', s['mask'], s['ev']))
             for variant in [v for v in VARIANTS if v[1] == side and not v[4]]:
                 w = dict(lst[0])
                 w.update(variant=variant[0], cls=variant[2], coroutine=variant[4])
@@ -583,18 +629,16 @@ def run(chk):
                 witnesses.append(w)
         if witnesses:
             res = run_scenarios(witnesses)
-            codes, errors = coqio.eval_cases('c13wit', imports, '', 'rcase', [r[0] for r in res], evalfn)
-            for e in errors:
-                chk.broken_obligation('witness evaluation failed: ' + e)
+            codes = eval_rcases(chk, 'c13wit', [r[0] for r in res], imports, evalfn, 'witness evaluation')
             n = report(chk, witnesses, res, codes, gen_ok)
             chk.extra['witnesses_replayed_on_real_classes'] = len(witnesses)
             chk.extra['witnesses_confirmed_on_real_classes'] = n
             for i, w in enumerate(witnesses):
-                if not codes.get(i, 0) & 2:
+                if not codes.get(i, (0, None))[0] & 2:
                     chk.broken_obligation('generated %s lookup differs from the specification on %r but the real %s '
                                           'follows the specification there (translator or model suspect)'
                                           % (w['side'], w, w['cls']))
-        if not proved and not bad and searched:
+        if not proved and not bad and searched and not (client_full and not promoted):
             chk.broken_obligation('a C13 theorem no longer proves although generated functions and specification '
                                   'agree on the whole abstract domain (proof script needs attention)')
         if not client_full and not bad.get(('C', 'event')) and not bad.get(('C', 'trigger')) and searched:
@@ -604,9 +648,7 @@ def run(chk):
     # 3. exhaustive correspondence on the real classes
     scs = enumerate_scenarios(chk)
     results = run_scenarios(scs)
-    codes, errors = coqio.eval_cases('c13', imports, '', 'rcase', [r[0] for r in results], evalfn)
-    for e in errors:
-        chk.broken_obligation('case evaluation failed: ' + e)
+    codes = eval_rcases(chk, 'c13', [r[0] for r in results], imports, evalfn, 'case evaluation')
     chk.traces_validated = len(scs)
     for i, sc in enumerate(scs):
         trivial = not sc['funs'] and not sc['classes']
@@ -621,7 +663,8 @@ def run(chk):
     if gen_ok:
         typed = [s for i, s in enumerate(scs) if not s['async'] and (chk.thorough or i % 3 == 0)]
         terms, labels = tv_cases(chk.rng, 3000 if chk.thorough else 700, typed)
-        codes, errors = coqio.eval_cases('c13tv', IMPORTS_GEN, '', 'tvcase', terms, 'eval_tv')
+        codes, errors = coqio.eval_cases('c13tv', IMPORTS_GEN, '', 'tvcase', terms, 'eval_tv',
+                                         shard=shard_for(len(terms)))
         for e in errors:
             chk.broken_obligation('translator validation could not be evaluated: ' + e)
         for lab in labels:
@@ -632,6 +675,9 @@ def run(chk):
         for i in sorted(codes)[:5]:
             chk.broken_obligation('translator validation: generated definition and real Python function disagree '
                                   'on %s: %s' % (labels[i], terms[i][:600]))
+        if not gen_is_current():
+            chk.broken_obligation('the generated Routing/Gen_*.v files were changed while the check was running '
+                                  '(concurrent run with a different VERIF_REPO?): results are not consistent, re-run')
 
 
 def replay(chk, data):
@@ -647,10 +693,13 @@ def replay(chk, data):
     print('scenario: %r' % sc)
     print('observed on the real %s: %r' % (sc['cls'], res[2]))
     imports, fn = (IMPORTS_GEN, 'eval_full') if ok else (IMPORTS_SPEC, 'eval_spec')
+    names = [fn, 'spec_calls   (what the documented rules prescribe)', 'rc_obs       (what the real class did)']
     terms = ['%s %s' % (fn, res[0]), 'spec_calls %s' % res[0], 'rc_obs %s' % res[0]]
     if ok:
+        names.append('model_calls  (generated lookups under the hand model of _trigger_event)')
         terms.append('model_calls %s' % res[0])
     rc, out = coqio.eval_print('c13_replay', imports, '', terms)
+    print('values printed below, in order: ' + '; '.join(names))
     print(out)
     first = out.split('\n')[0] if out else ''
     bad = rc != 0 or '= 0' not in first
